@@ -381,6 +381,19 @@ def fam_split(thorough=False):
     return out
 
 
+def fam_split_single():
+    """interval size at least the horizon: the split set-up consists of ONE interval and must equal the unsplit problem"""
+    ids = Ids()
+    out = []
+    for T, size in [(4, 4), (3, 5)]:
+        pr1 = ([1, 5, 2, 6, 3, 4] * T)[:T]
+        a = [F.contract(T, 'n1', -1, 1, pr1, ec=1), slack(T, 'n1', 3, lo=-2, hi=2)]
+        out.append(F.make_cfg(ids(), T, a, split=split_steps(T, size), refines=True, interval='%dh' % size, coupling='none'))
+        a = [slack(T, 'n1', pr1, lo=-3, hi=3), F.storage(T, 'n1', size=2, cin=1, cout=1)]
+        out.append(F.make_cfg(ids(), T, a, split=split_steps(T, size), refines=True, interval='%dh' % size, coupling='storage_start_eq_end'))
+    return out
+
+
 def fam_split_discount():
     """discounting across intervals: one year per step, wacc = 1, intervals of two years"""
     ids = Ids()
